@@ -12,6 +12,18 @@ pub const UNIVERSE: [&str; 6] = ["b", "a", "d", "c", "ab", ""];
 /// never inserted
 pub const ABSENT: &str = "zz";
 
+/// Long names that are never inserted either: 300 bytes of characters of 1, 2, 3 and 4 bytes in
+/// turn (in two phases), so that almost every byte offset an error message might be cut at falls
+/// inside a character.
+pub fn absent_long(phase: usize) -> String {
+    let body = "a\u{fc}\u{3042}\u{1f600}".repeat(30);
+    if phase % 2 == 0 {
+        body
+    } else {
+        format!("x{}", body)
+    }
+}
+
 thread_local! {
     static UNIVERSE_SIZE: std::cell::Cell<usize> = const { std::cell::Cell::new(6) };
     /// explicit name universe (histories on the huge graph: hubs, their neighbours, high positions)
